@@ -121,10 +121,10 @@ type c18Spec[T any] struct {
 	// open returns a fresh iterator over the case's input and a cleanup.
 	open    func(in Val) (iter.Seq2[T, error], func())
 	enc     func(T, error) Val
-	errLast bool                 // FASTA, FASTQ, BED, Newick: an error item is the last item
-	domain  func(in Val) bool    // nil: every input is in the property's domain
+	errLast bool                             // FASTA, FASTQ, BED, Newick: an error item is the last item
+	domain  func(in Val) bool                // nil: every input is in the property's domain
 	post    func(items []Val, total int) Val // re-encoding of the items seen (ForEach)
-	unorder bool                 // ForEach: order differs from run to run
+	unorder bool                             // ForEach: order differs from run to run
 }
 
 func (s c18Spec[T]) run(in Val, p int) Val {
@@ -1133,7 +1133,9 @@ func (c *Ctx) totMutateN(text []byte, fieldSeps string, delims []byte) ([]byte, 
 	return t, strat
 }
 
-func (c *Ctx) totUniformBytes() []byte { return c.RandBytes(c.Choose(0, 1, 2, 3, 5, 8, 16, 40, 100, 300), nil) }
+func (c *Ctx) totUniformBytes() []byte {
+	return c.RandBytes(c.Choose(0, 1, 2, 3, 5, 8, 16, 40, 100, 300), nil)
+}
 
 func totSmOracle(data []byte) Val { return smCase(data, false, smNoTruth).At(2) }
 
